@@ -272,7 +272,7 @@ fn route_mpp_overpay_probe(a: &mut Args) -> String {
 	}
 }
 
-/// route_validity_probe <amount> <max_paths> <max_fee (u64::MAX = none)> <max_cltv> <mpp 0/1> <nfailed> <failed scid>* <nchan> (<kind> <scid> <src> <dst> <base> <prop> <min> <max> <cltv> <cap_msat>)*
+/// route_validity_probe <amount> <max_paths> <max_fee (u64::MAX = none)> <max_cltv + 65536 * final_cltv_delta> <mpp 0/1> <nfailed> <failed scid>* <nchan> (<kind> <scid> <src> <dst> <base> <prop> <min> <max> <cltv> <cap_msat>)*
 /// Public router API (`find_route`) on a graph described channel by channel; node 0 pays node 1.
 ///   kind 0: announced channel, policy given for the direction src -> dst (the reverse direction gets a zero-fee
 ///           policy); <cap_msat>/1000 is the announced capacity;
@@ -299,6 +299,8 @@ fn route_validity_probe(a: &mut Args) -> String {
 	use lightning::routing::scoring::{ProbabilisticScorer, ProbabilisticScoringDecayParameters, ProbabilisticScoringFeeParameters};
 	use lightning::types::features::{Bolt11InvoiceFeatures, ChannelFeatures, InitFeatures};
 	let (amount, max_paths, max_fee, max_cltv, mpp) = (a.u64(), a.u8(), a.u64(), a.u32(), a.bool());
+	// the final hop's CLTV delta rides in the upper half of the <max_cltv> argument (0 in most scenarios)
+	let (final_cltv, max_cltv) = (max_cltv >> 16, max_cltv & 0xffff);
 	let nfailed = a.usize();
 	let failed: Vec<u64> = (0..nfailed).map(|_| a.u64()).collect();
 	let nchan = a.usize();
@@ -397,7 +399,7 @@ fn route_validity_probe(a: &mut Args) -> String {
 	if mpp {
 		feats.set_basic_mpp_optional();
 	}
-	let mut params = PaymentParameters::from_node_id(key(1), 0).with_bolt11_features(feats).unwrap()
+	let mut params = PaymentParameters::from_node_id(key(1), final_cltv).with_bolt11_features(feats).unwrap()
 		.with_max_path_count(max_paths).with_max_total_cltv_expiry_delta(max_cltv).with_max_channel_saturation_power_of_half(0);
 	if !hints.is_empty() {
 		params = params.with_route_hints(hints).unwrap();
@@ -427,7 +429,8 @@ fn route_validity_probe(a: &mut Args) -> String {
 	if route.paths.len() > max_paths as usize {
 		mask |= 1;
 	}
-	let mut joint: std::collections::HashMap<u64, u64> = std::collections::HashMap::new();
+	// (per described channel, not per short channel id: ids of unannounced channels / aliases need not be unique)
+	let mut joint: std::collections::HashMap<usize, u64> = std::collections::HashMap::new();
 	let (mut delivered, mut fees_total) = (0u64, 0u64);
 	for p in route.paths.iter() {
 		let n = p.hops.len();
@@ -437,15 +440,15 @@ fn route_validity_probe(a: &mut Args) -> String {
 		let mut at = 0usize;
 		let mut cltv_total = 0u32;
 		for (i, h) in p.hops.iter().enumerate() {
-			let c = match chans.iter().find(|c| c.scid == h.short_channel_id && c.src == at && key(c.dst) == h.pubkey) {
-				Some(c) => c,
+			let (ci, c) = match chans.iter().enumerate().find(|(_, c)| c.scid == h.short_channel_id && c.src == at && key(c.dst) == h.pubkey) {
+				Some(x) => x,
 				None => { mask |= 128; break; },
 			};
 			at = c.dst;
 			if carried[i] < c.min {
 				mask |= 2;
 			}
-			*joint.entry(c.scid).or_insert(0) += carried[i];
+			*joint.entry(ci).or_insert(0) += carried[i];
 			if carried[i] > c.max {
 				mask |= 4;
 			}
@@ -465,12 +468,12 @@ fn route_validity_probe(a: &mut Args) -> String {
 				mask |= 128;
 			}
 		}
-		if cltv_total > max_cltv {
+		if cltv_total + final_cltv > max_cltv {
 			mask |= 64;
 		}
 	}
-	for c in chans.iter() {
-		if let Some(j) = joint.get(&c.scid) {
+	for (ci, c) in chans.iter().enumerate() {
+		if let Some(j) = joint.get(&ci) {
 			if *j > c.cap || *j > c.max {
 				mask |= 4;
 			}
